@@ -1,12 +1,13 @@
 """C03 -- nothing below threshold; results well formed and ordered.  M: InBounds on V2Match.  G: tokenizer replay (alphabets A, B: the words token indices count).  T: TraceV2 WellFormed on arbitrary inputs x 7 thresholds x corpora (odd names)."""
 import time
 from lib import vlib
-from checks.v2common import pad_leg, Acc, trace_leg, match_model, tok_replay
+from checks.v2common import retain_legs, pad_leg, Acc, trace_leg, match_model, tok_replay
 PID = "C03"
 def run():
     t0 = time.time(); v = vlib.Verdict(PID); acc = Acc()
     match_model(acc, ["T70"])                                                    # InBounds of every candidate on the mechanism spec
     tok_replay(v, acc, ["B", "A"], 5 if vlib.TIER == "thorough" else 4)   # what a word is (token indices count them): the tokenizer against its spec
+    retain_legs(v, acc, vlib.TIER == "thorough")                  # the overlap filter: every small candidate set injected into the real match()
     pad_leg(v, acc)                                       # the read buffer under the tokenizer: multi-byte text at every alignment
     recs, lines = trace_leg(v, acc, "c03", [PID])
     ms = [r for r in lines if r.get("ev") == "match"]
